@@ -290,3 +290,13 @@ func FloatIsNaN(f float64) bool { return f != f }
 
 // LoadImage is replaced natively by the kb package (real builder); calling it here is an error.
 func LoadImage(name string, dst any) { panic("zzverif.LoadImage is only available under gosym") }
+
+// ---- heap queries (gosym only; natively they report "nothing to see", the checks that use them are model-level)
+
+func FootprintBegin(tag string)                       {}
+func FootprintEnd(tag string)                         {}
+func FootprintConflicts(a, b string) int              { return 0 }
+func FootprintWritesInto(tag string, roots ...any) int { return 0 }
+func FootprintSize(tag string) int                    { return 1 }
+func FootprintTouches(tag string, roots ...any) int    { return 0 }
+func FootprintWritesGlobals(tag string) int            { return 0 }
